@@ -37,7 +37,7 @@ def jobs(tier, seed):
         names = ["x", "y", "z", "w", "u"][:nv]
         base = [B.rterm(rng, names, za) for _ in range(rng.choice([1, 2, 3]))]
         terms = list(base)
-        plant = rng.choice(["dup", "scaled", "combo", "none", "opposite", "dup+combo"])
+        plant = rng.choice(["dup", "scaled", "combo", "none", "opposite", "dup+combo", "near-dup"])
         if "dup" in plant:
             terms.append(dict(rng.choice(base)))
         if plant == "scaled":
@@ -54,10 +54,21 @@ def jobs(tier, seed):
                 terms.append(c)
         if plant == "opposite":
             terms.append({k: -v for k, v in base[0].items()})
+        near = None
+        if plant == "near-dup":
+            # a term that differs from another one only in the sixth digit of one coefficient
+            t0 = rng.choice(base)
+            k0 = rng.choice(sorted(t0))
+            near = dict(t0)
+            near[k0] = t0[k0] * (1 + 8e-6)
+            terms.append(near)
         rng.shuffle(terms)
         max_t = 5 if tier == "quick" else 6
         terms = terms[:max_t]
         ctx_mode = rng.choice(["none", "none", "random", "implies", "shared"])
+        if near is not None and near in terms:
+            # the near-duplicate's twin goes to the context half of the time
+            ctx_mode = rng.choice(["near-in-context", "none"])
         cx = []
         if ctx_mode == "random":
             cx = [B.rterm(rng, names, za) for _ in range(rng.choice([1, 2]))]
@@ -65,6 +76,9 @@ def jobs(tier, seed):
             cx = [dict(rng.choice(terms))]  # same direction as a term: implied only via the context
         elif ctx_mode == "shared":
             cx = [dict(terms[0])]
+        elif ctx_mode == "near-in-context":
+            terms.remove(near)
+            cx = [near]
         out.append({"kind": f"list:{plant}:{ctx_mode}", "terms": terms, "ctx": cx, "ctx_shared_const": ctx_mode == "shared", "explicit_none": ctx_mode == "none" and rng.random() < 0.5})
     nc = 40 if tier == "quick" else 500
     for i in range(nc):
